@@ -12,6 +12,9 @@ for d in dirs:
         continue
     meta = json.load(open(d + "meta.json"))
     prop = meta.get("breaks") or meta.get("property")
+    if meta.get("status") == "retired":
+        print(name, prop, "RETIRED (no longer breaks the property on the current tree; see meta.json)")
+        continue
     st = subprocess.run(["git", "-C", "/repo", "status", "--porcelain"], capture_output=True, text=True).stdout.strip()
     if st:
         print("refusing: /repo is dirty:\n" + st); sys.exit(2)
